@@ -37,11 +37,15 @@ ASSUMPTIONS = [
     "inputs on which the analysis raises belong to C19",
     "the first pickle is executed by fickling.load only when its verdict is LIKELY_SAFE; all "
     "payloads are harmless regardless",
+    "no built-in analysis answers POSSIBLY_UNSAFE: an Analysis subclass of the harness's own (self-registering, the "
+    "documented extension point) rates pickles holding a marker string exactly that, so all six ranks occur on every face",
 ]
 
 RANK = {"LIKELY_SAFE": 0, "POSSIBLY_UNSAFE": 1, "SUSPICIOUS": 2, "LIKELY_UNSAFE": 3,
         "LIKELY_OVERTLY_MALICIOUS": 4, "OVERTLY_MALICIOUS": 5}  # fmt: skip
 FLAGGED = (
+    # rated exactly POSSIBLY_UNSAFE (by the harness's plug-in analysis, see ensure_plugin)
+    b"S'verif: rate me possibly unsafe'\n.", b"\x80\x02]q\x00X\x1e\x00\x00\x00verif: rate me possibly unsafeq\x01a.",
     b"ccollections\nOrderedDict\n)R0N.",
     b"cverif_sink\nsink\n(S'tag1'\ntR.",
     b"\x80\x04\x8c\nverif_sink\x8c\x04sink\x93\x8c\x04tag2\x85R.",
@@ -101,6 +105,28 @@ def parse_concat_json(text):
         docs.append(doc)
         i = j
     return docs
+
+
+MARKER = "verif: rate me possibly unsafe"
+_PLUGIN = {}
+
+
+def ensure_plugin():
+    """no built-in analysis ever answers POSSIBLY_UNSAFE, so that rank would never be exercised: an
+    analysis of the harness's own (the documented way to extend fickling: subclass Analysis, it
+    registers itself) rates pickles holding a marker string exactly that.  Defined before the
+    process asks its first verdict, so the default analyzer includes it on every face."""
+    if _PLUGIN:
+        return
+    from fickling.analysis import Analysis, AnalysisResult, Severity
+
+    class VerifMarkerAnalysis(Analysis):
+        def analyze(self, context):
+            if any(getattr(op, "arg", None) == MARKER for op in context.pickled):
+                yield AnalysisResult(Severity.POSSIBLY_UNSAFE, "the harness's marker string is present", "VerifMarkerAnalysis",
+                                     trigger=MARKER)
+
+    _PLUGIN["cls"] = VerifMarkerAnalysis
 
 
 def exit_status(rc):
@@ -351,6 +377,7 @@ def check_stack(parts, json_given, print_results, scratch):
 
 
 def replay(case):
+    ensure_plugin()
     if case.get("order_table"):
         n, bad = severity_order_table()
         return Failure(case, "severity ordering: " + "; ".join(bad[:5])) if bad else None
@@ -379,6 +406,7 @@ def shards(tier):
 def run_shard(spec, seed):
     from hypothesis import strategies as st
 
+    ensure_plugin()
     res = ShardResult()
     if spec["kind"] == "order":
         n, bad = severity_order_table()
